@@ -89,6 +89,21 @@ func genC04(c *Ctx) *Plan {
 			}
 		}
 	}
+	// a slow application delegate on one member plus a burst of user messages to it:
+	// the packet handler is busy, the listener must keep answering pings
+	if r.chance(0.35) && n >= 2 {
+		victim := r.intn(n)
+		at := end + r.i64n(dur/2)
+		p.Ops = append(p.Ops, Op{At: at, Kind: "slowdelegate", Node: victim, A: int64(ms(p.Cfg.ProbeIntervalMs)) * int64(r.pick(1, 2, 4))})
+		for k := 0; k < r.rangeI(3, 10); k++ {
+			src := r.intn(n)
+			if src == victim {
+				src = (src + 1) % n
+			}
+			p.Ops = append(p.Ops, Op{At: at + 1_000_000 + int64(k)*int64(r.pick(1000, 1_000_000, 50_000_000)), Kind: "send", Node: src, B: int64(victim), Buf: r.bytes(r.rangeI(1, 40))})
+		}
+		p.P["slow_delegate"] = 1
+	}
 	// no UpdateNode after the same node's Leave (it has nothing to announce)
 	leaveAt := map[int]int64{}
 	for _, o := range p.Ops {
@@ -194,6 +209,9 @@ func execC04(c *Ctx) {
 		if (rec.Op.Kind == "update" || rec.Op.Kind == "leave") && rec.Err != "" && rec.Err != "not running" {
 			c.Violate("broadcast-notify-timeout", "", fmt.Sprintf("n%d", rec.Op.Node), "%s on n%d failed on a loss-free network: %s", rec.Op.Kind, rec.Op.Node, rec.Err)
 		}
+	}
+	if p.param("slow_delegate", 0) == 1 {
+		c.Reach("slow_delegate")
 	}
 	c.Res.Sample = map[string]any{"n": p.N, "ops": len(p.Ops), "max_delay_us": p.Net.MaxDelay / 1000}
 	cx.finish()
